@@ -15,10 +15,13 @@ computed here.  Long runs (at / below / above the count maximum of uint8, int8, 
 TLC as run descriptions, never as 500-element sequences; dense results of such calls are
 re-described losslessly as maximal runs by `to_runs` (a projection: order, values and lengths kept).
 
-Rejections are attributed to a deviation id (root cause) by `attribute`: a predicate on the input
-(kind of base encoding, classes in the expression tree, data pattern) and the method, plus the
-outcome the root cause predicts where that is cheap (exception name / empty result).  Rejections
-matching no predicate stay plain violations.
+Rejections are attributed to a deviation id (root cause, table DEVIATIONS) by attribute_fn /
+attribute_enc / attribute_grid: a predicate on the input (kind of base encoding, classes in the
+expression tree, data pattern) and the method, plus the outcome the root cause predicts where that
+is cheap (exception name / empty result).  Rejections matching no predicate stay plain violations.
+At most REPORT_CAP observations per (clause, deviation) are handed to the Verdict; the evidence
+carries the full counts.  Every observed call runs under a time limit, so code that stops
+terminating is recorded (exception name CallTimeout) instead of hanging the check.
 """
 import contextlib
 import io
@@ -662,8 +665,10 @@ def gen_enc_cases(chunk):
 
 def encoding_work(tier):
     """quick: every chain of length <= 1 (all operations) over every array (every other array of the
-    8-element shapes), chains of length 2 over the reduced operation set with a rotating share of
-    the arrays.  thorough: every chain of length <= 2 over every array, length 3 reduced/rotating."""
+    8-element shape at length 1), chains of length 2 over the reduced operation set with a rotating
+    share of the arrays.  thorough: every chain of length <= 2 over every array (every other array of
+    the 8-element shape at length 2), length 3 reduced / rotating.  All-empty and all-full arrays
+    meet every chain."""
     big = tier == "thorough"
     depth = 3 if big else 2
     full = 2 if big else 1
@@ -676,7 +681,7 @@ def encoding_work(tier):
         for ci, (chain, vshape) in enumerate(chains):
             # rotation: every chain meets >= 1/stride of the arrays, every array meets 1/stride of the chains
             if len(chain) <= full:
-                stride = 1 if (big or size < 8) else 2
+                stride = 2 if size == 8 and len(chain) == full else 1
             else:
                 stride = {3: 1, 4: 2, 6: 4, 8: 16}[size] * (2 if big else 1)
             exh = len(chain) <= 1 and size <= 4
@@ -887,6 +892,48 @@ def grid_work(tier):
 # never depends on anything computed here.
 LAZY = ("FlattenedEncoding", "ShapedEncoding", "TransposedEncoding", "FlippedEncoding")
 RL = ("RunLengthEncoding", "BinaryRunLengthEncoding")
+DEVIATIONS = {
+    "BrleReverseEvenLength": "runlength.brle_reverse returns an empty encoding when the input has even length or ends "
+                             "with a zero count (so BinaryRunLengthEncoding.flip empties any data ending in True)",
+    "BrleToSparseNoTrueRun": "runlength.brle_to_sparse raises ValueError when the encoding has no True-run slot "
+                             "(all-False data), so BinaryRunLengthEncoding.sparse_indices raises on empty data",
+    "BrleToDenseIgnoresVals": "runlength.brle_to_dense ignores its documented `vals` substitution argument",
+    "GatherListIndicesNumpy2": "rle/brle_gather_1d (and RunLengthEncoding.gather) with a list of indices raise "
+                               "ValueError under numpy 2 (np.array(indices, copy=False))",
+    "DenseSparseValues": "DenseEncoding.sparse_values gathers with the (m, ndims) index array along axis 0 "
+                         "(gather instead of gather_nd): wrong shape/values or IndexError",
+    "SparseNon3D": "SparseEncoding._flat_indices asserts exactly 3 index columns: dense, gather_nd, mask ... raise "
+                   "AssertionError for every sparse encoding that is not 3-D",
+    "SparseGetValue": "SparseEncoding.get_value calls the non-existent self._gather_nd (AttributeError, every input)",
+    "SparseMask": "SparseEncoding.mask raises / returns indices instead of the masked values (every input)",
+    "SparseStrippedPadRight": "SparseEncoding.stripped reports a trailing padding one too large on every axis",
+    "BrleStrippedUsesRleStrip": "BinaryRunLengthEncoding.stripped calls rle_strip on BRLE data (wrong or ValueError)",
+    "BrleGatherNdSqueeze": "BinaryRunLengthEncoding.gather_nd squeezes all axes, a single index row becomes 0-d (IndexError)",
+    "RleFlipDropsDtype": "RunLengthEncoding._flip forgets dtype: a flipped boolean RLE reports int64 and its views "
+                         "cannot produce binary_run_length_data",
+    "RunLengthSparseIndicesRank1": "RunLengthEncoding / BinaryRunLengthEncoding.sparse_indices have shape (m,) not (m, 1); "
+                                   "FlattenedEncoding over them raises for m != 1",
+    "RleToSparseEmptyReturnsLists": "runlength.rle_to_sparse returns python lists for all-zero data; every lazy view "
+                                    "(and VoxelGrid.sparse_indices of an empty loaded binvox) then raises",
+    "LazyViewGetValue": "LazyIndexMap.get_value subscripts the wrapped Encoding (TypeError); TransposedEncoding.get_value "
+                        "calls the non-existent _base_indices; FlippedEncoding indexes a 1-D index with [:, a] (every input)",
+    "FlippedToBaseIndices": "FlippedEncoding._to_base_indices adds the whole shape tuple instead of shape[a] - 1: "
+                            "gather_nd / sparse_indices raise (N-d) or are off by one (1-D)",
+    "FlippedMask": "FlippedEncoding.mask hands an Encoding to the wrapped mask() and flips a 1-D result (every input)",
+    "FlippedFlipAgain": "FlippedEncoding.flip re-flips itself instead of its base: RuntimeError, or the flip is ignored "
+                        "when the axes cancel",
+    "TransposedMask": "TransposedEncoding.mask transposes the 1-D masked values with an N-d permutation (every input)",
+    "TransposedIndexMapsSwapped": "TransposedEncoding uses perm where inv_perm is needed and vice versa in "
+                                  "_to_base_indices / _from_base_indices: wrong for permutations that are not involutions",
+    "ShapedMaskFlatiter": "ShapedEncoding.mask passes numpy's mask.flat (a flatiter) down; only a raw run-length base accepts it",
+    "VolumeSignedDeterminant": "Transform.unit_volume is the signed determinant: VoxelGrid.volume is negative for mirrored grids",
+    "RunLengthDataDtypeNotHonoured": "rle_to_rle / brle_to_rle(dtype=uint8) return int64 when the stored counts are int64: "
+                                     "export_binvox(axis_order='xyz') of a run-length based grid raises",
+    "BinvoxNonCubicXzyAssert": "voxel_from_binvox(axis_order='xzy') overwrites `shape` with the permuted shape and then "
+                               "asserts against it: AssertionError for grids with shape[1] != shape[2]",
+    "BinvoxNegativeScaleTranslation": "export_binvox flips axes of negative scale but keeps the translation of the "
+                                      "un-flipped grid: the reloaded cells are shifted by (n-1)*|scale|",
+}
 
 
 def attribute_fn(c, clause):
@@ -949,22 +996,23 @@ def attribute_enc(rec, q, clause):
                 c.append("ShapedMaskFlatiter")
             elif t == "SparseEncoding":
                 c.append("SparseMask")
-    if r in ("gather_nd", "sparse_indices", "sparse_pairs"):
-        if "FlippedEncoding" in tree:
-            c.append("FlippedToBaseIndices")
-        if any(not involution(p) for p in rec["tperms"]):
-            c.append("TransposedIndexMapsSwapped")
-    if r == "gather_nd" and kind == "brle" and len(q["arg"]) == 1 and raised:
-        c.append("BrleGatherNdSqueeze")
-    if r == "gather" and q.get("form") == "list" and tree[0] in RL and clause == "raised_ValueError":
-        c.append("GatherListIndicesNumpy2")
     if r in ("sparse_indices", "sparse_pairs") and raised:
+        # the base encoding is evaluated first
         if kind == "brle" and empty:
             c.append("BrleToSparseNoTrueRun")
         if kind == "rle" and empty and tree[0] in LAZY:
             c.append("RleToSparseEmptyReturnsLists")
         if len(tree) >= 2 and tree[-2] == "FlattenedEncoding" and tree[-1] in RL:
             c.append("RunLengthSparseIndicesRank1")
+    if r == "gather_nd" and kind == "brle" and len(q["arg"]) == 1 and raised:
+        c.append("BrleGatherNdSqueeze")
+    if r in ("gather_nd", "sparse_indices", "sparse_pairs"):
+        if "FlippedEncoding" in tree:
+            c.append("FlippedToBaseIndices")
+        if any(not involution(p) for p in rec["tperms"]):
+            c.append("TransposedIndexMapsSwapped")
+    if r == "gather" and q.get("form") == "list" and tree[0] in RL and clause == "raised_ValueError":
+        c.append("GatherListIndicesNumpy2")
     if r in ("sparse_values", "sparse_pairs") and kind == "dense":
         c.append("DenseSparseValues")
     if r == "stripped":
@@ -1030,12 +1078,19 @@ def main(argv):
             cases += res
         return cases
 
-    rounds = [("fn", fn_round)]
-    # interleave so that every round meets every shape / base / chain length
+    def enc_round(k, nr):
+        return [c for res in pmap(gen_enc_cases, enc_work[k::nr], chunk=100) for c in res]
+
+    def grid_round():
+        return [c for res in pmap(gen_grid_cases, g_work, chunk=60) for c in res]
+
+    # one TLC batch when everything fits comfortably (quick); otherwise rounds of bounded size,
+    # interleaved so that every round meets every shape / base / chain length
     nr = max(1, -(-len(enc_work) // ROUND_TREES))
-    for k in range(nr):
-        rounds.append(("enc", lambda k=k: [c for res in pmap(gen_enc_cases, enc_work[k::nr], chunk=100) for c in res]))
-    rounds.append(("grid", lambda: [c for res in pmap(gen_grid_cases, g_work, chunk=60) for c in res]))
+    if nr == 1:
+        rounds = [lambda: fn_round() + enc_round(0, 1) + grid_round()]
+    else:
+        rounds = [fn_round] + [lambda k=k: enc_round(k, nr) for k in range(nr)] + [grid_round]
 
     count = {"fn": 0, "enc": 0, "grid": 0}
     byfn, by_dev, by_clause_dev = {}, {}, {}
@@ -1043,7 +1098,7 @@ def main(argv):
     reads = states = rejected = 0
     nxt = 0
     gen_wall = tlc_wall = 0.0
-    for rk, (part, gen) in enumerate(rounds):
+    for rk, gen in enumerate(rounds):
         t0 = time.time()
         cases = gen()
         gen_wall += time.time() - t0
@@ -1059,12 +1114,12 @@ def main(argv):
                 reads += len(c["reads"])
             nxt += 1
             byfn[c["fn"]] = byfn.get(c["fn"], 0) + 1
-        count[part] += len(cases)
+            count["enc" if c["fn"] == "enc" else "grid" if c["fn"].startswith("grid_") else "fn"] += 1
         if not cases:
             continue
         if nxt >= 2 ** 31:
             raise MachineryError("record ids beyond TLC integers")
-        samples.append(strip_sample(cases[(len(cases) * 2) // 3]))
+        samples += [strip_sample(cases[len(cases) // 5]), strip_sample(cases[(len(cases) * 9) // 10])]
         rejects, st, wall = tlc.validate_batches(f"c13/r{rk}", "RunLength", cases, CFG, timeout=2400)
         states += st
         tlc_wall += wall
@@ -1105,6 +1160,7 @@ def main(argv):
         "cases_per_function": byfn,
         "rejected": rejected,
         "rejected_by_deviation": by_dev,
+        "deviation_descriptions": {k: DEVIATIONS.get(k, "") for k in by_dev if k != "-"},
         "unattributed_clauses": unattributed,
         "unattributed_examples": unattributed_examples,
         "reported_violations_capped_per_clause_and_deviation": REPORT_CAP,
@@ -1112,7 +1168,7 @@ def main(argv):
         "rounds": len(rounds),
         "generation_wall_s": round(gen_wall, 1),
         "tlc_wall_s": round(tlc_wall, 1),
-        "samples": samples[:2] + samples[-1:],
+        "samples": samples[:3] + samples[-1:],
     }
     return V.finish("model_checking", cov, assumptions=[
         "boolean sequences of length <= 10, sequences over {0,1,2} of length <= 7, encodings of <= 5 counts / 3 pairs",
